@@ -39,6 +39,25 @@ var (
 	vc16Base   = time.Date(2024, 1, 2, 3, 4, 5, 0, time.UTC)
 )
 
+// vc16ManyDevs are device IDs from a counter, for batches of thousands.
+var vc16ManyDevs = func() (ids []agd.DeviceID) {
+	ids = make([]agd.DeviceID, 12300)
+	for i := range ids {
+		ids[i] = agd.DeviceID(fmt.Sprintf("dv%06d", i))
+	}
+
+	return ids
+}()
+
+// vc16Dev is the i-th device: the four hand-picked ones first.
+func vc16Dev(i int) (id agd.DeviceID) {
+	if i < len(vc16Devs) {
+		return vc16Devs[i]
+	}
+
+	return vc16ManyDevs[i]
+}
+
 type vc16ErrColl struct{}
 
 func (vc16ErrColl) Collect(_ context.Context, _ error) {}
@@ -95,6 +114,17 @@ const (
 // stream cannot be opened on a context that is done, and Send/CloseAndRecv
 // fail once the stream's context is done.
 type vc16Attempt struct {
+	// FaultStream is the number (from 1; 0 means 1) of the stream of the
+	// upload that gets the scripted fault; every other stream of the same
+	// upload succeeds.  LaterOrOnly replaces it: the fault hits the second
+	// stream of the upload if the uploader opens one; otherwise the first
+	// (only) stream, which has then carried the whole batch, fails at
+	// CloseAndRecv.
+	FaultStream int
+	LaterOrOnly bool
+	streamNo    int
+	failIfWhole bool
+
 	Ctx     int
 	cancel  context.CancelFunc
 	Kind    int
@@ -149,7 +179,22 @@ type vc16World struct {
 }
 
 func (w *vc16World) fatalf(format string, args ...any) {
-	w.t.Fatalf("%s\nhistory:\n  %s\nrecorded=%v delivered=%v", fmt.Sprintf(format, args...), strings.Join(w.log, "\n  "), w.recorded, w.delivered)
+	state := fmt.Sprintf("recorded=%v delivered=%v", w.recorded, w.delivered)
+	if len(w.recorded) > 40 {
+		var rs, ds int64
+		diff := []string{}
+		for d, r := range w.recorded {
+			rs += r
+			ds += w.delivered[d]
+			if r != w.delivered[d] && len(diff) < 8 {
+				diff = append(diff, fmt.Sprintf("%s: recorded %d delivered %d", d, r, w.delivered[d]))
+			}
+		}
+
+		state = fmt.Sprintf("%d devices, %d queries recorded, %d delivered; some devices that differ: %v", len(w.recorded), rs, ds, diff)
+	}
+
+	w.t.Fatalf("%s\nhistory:\n  %s\n%s", fmt.Sprintf(format, args...), strings.Join(w.log, "\n  "), state)
 }
 
 func (w *vc16World) record(rc *vc16Rec) {
@@ -158,7 +203,7 @@ func (w *vc16World) record(rc *vc16Rec) {
 	m.N = w.n
 	// The start time is not monotone in recording order.
 	m.Time = vc16Base.Add(time.Duration(rc.T)*time.Second + time.Duration(rc.T)*time.Microsecond)
-	d := vc16Devs[rc.Dev]
+	d := vc16Dev(rc.Dev)
 	if prev, ok := w.last[d]; rc.Near == 4 {
 		m.Ctry, m.ASN = geoip.CountryNone, 0
 		if ok && (prev.Ctry != geoip.CountryNone || prev.ASN != 0) {
@@ -209,6 +254,31 @@ func (w *vc16World) record(rc *vc16Rec) {
 	}
 }
 
+// recordBulk records one query for each of the first n devices, cheaply.
+func (w *vc16World) recordBulk(n int) {
+	for i := 0; i < n; i++ {
+		w.n++
+		d := vc16Dev(i)
+		t := i % 13
+		m := vc16Meta{
+			N:     w.n,
+			Time:  vc16Base.Add(time.Duration(t)*time.Second + time.Duration(t)*time.Microsecond),
+			Ctry:  vc16Ctrys[i%len(vc16Ctrys)],
+			ASN:   geoip.ASN(i),
+			Proto: vc16Protos[i%len(vc16Protos)],
+		}
+
+		w.r.Record(w.ctx, d, m.Ctry, m.ASN, m.Time, m.Proto)
+		w.recorded[d]++
+		w.last[d] = m
+		if w.failedSeen[d] {
+			w.recAfterFail[d] = true
+		}
+	}
+
+	w.log = append(w.log, fmt.Sprintf("Record one query for each of %d devices (%s .. %s)", n, vc16Dev(0), vc16Dev(n-1)))
+}
+
 // vc16Client is the scripted DNSServiceClient.
 type vc16Client struct {
 	DNSServiceClient
@@ -221,11 +291,29 @@ func (c *vc16Client) SaveDevicesBillingStat(
 	_ ...grpc.CallOption,
 ) (s grpc.ClientStreamingClient[DeviceBillingStat, emptypb.Empty], err error) {
 	w := c.w
-	a := w.next
-	w.next = nil
-	if a == nil {
-		a = &vc16Attempt{}
+
+	// The script belongs to the whole upload.  Its fault applies to one
+	// stream of the upload; the other streams of the same upload succeed.
+	up := w.next
+	a := &vc16Attempt{Kind: vc16OK}
+	if up == nil {
 		w.classes["unscripted-stream"] = true
+	} else {
+		up.streamNo++
+		switch {
+		case up.LaterOrOnly && up.streamNo == 1:
+			a.failIfWhole = true
+			a.ErrKind = up.ErrKind
+		case up.LaterOrOnly && up.streamNo == 2, !up.LaterOrOnly && up.streamNo == max(up.FaultStream, 1):
+			a.Kind, a.SendAt, a.ErrKind = up.Kind, up.SendAt, up.ErrKind
+			if up.LaterOrOnly && a.Kind == vc16OK {
+				a.Kind = vc16CloseErr
+			}
+		}
+
+		if up.streamNo == 1 {
+			a.Mid, a.MidAt, a.Ctx, a.cancel = up.Mid, up.MidAt, up.Ctx, up.cancel
+		}
 	}
 
 	w.streams++
@@ -271,7 +359,14 @@ func (c *vc16Client) SaveDevicesBillingStat(
 		}
 	}
 
-	return &vc16Stream{heldAtOpen: heldAtOpen, ctx: ctx, w: w, a: a, lastAtOpen: lastAtOpen, failAt: a.SendAt * expect / 1000, midAt: a.MidAt * (expect + 1) / 1000}, nil
+	if up != nil && up.streamNo == 1 && expect > 4096 {
+		w.classes["batch-over-4096-devices"] = true
+		if up.LaterOrOnly {
+			w.classes["batch-over-4096-devices-with-fault-on-later-rpc"] = true
+		}
+	}
+
+	return &vc16Stream{expect: expect, heldAtOpen: heldAtOpen, ctx: ctx, w: w, a: a, lastAtOpen: lastAtOpen, failAt: a.SendAt * expect / 1000, midAt: a.MidAt * (expect + 1) / 1000}, nil
 }
 
 type vc16Stream struct {
@@ -282,6 +377,7 @@ type vc16Stream struct {
 	a          *vc16Attempt
 	lastAtOpen map[agd.DeviceID]vc16Meta
 	heldAtOpen map[agd.DeviceID]bool
+	expect     int
 	msgs       []*DeviceBillingStat
 	failAt     int
 	midAt      int
@@ -300,7 +396,7 @@ func (s *vc16Stream) mid() {
 	s.midDevs = map[agd.DeviceID]bool{}
 	for i := range s.a.Mid {
 		s.w.classes["record-mid-stream"] = true
-		s.midDevs[vc16Devs[s.a.Mid[i].Dev]] = true
+		s.midDevs[vc16Dev(s.a.Mid[i].Dev)] = true
 		s.w.record(&s.a.Mid[i])
 	}
 
@@ -409,8 +505,13 @@ func (s *vc16Stream) Send(m *DeviceBillingStat) (err error) {
 		return s.broken
 	}
 
-	w.log = append(w.log, fmt.Sprintf("Send {dev=%s q=%d t=%s %q as%d p%d}", m.DeviceId, m.Queries,
-		m.LastActivityTime.AsTime().Sub(vc16Base), m.ClientCountry, m.Asn, m.Proto))
+	if len(s.msgs) < 6 {
+		w.log = append(w.log, fmt.Sprintf("Send {dev=%s q=%d t=%s %q as%d p%d}", m.DeviceId, m.Queries,
+			m.LastActivityTime.AsTime().Sub(vc16Base), m.ClientCountry, m.Asn, m.Proto))
+	} else if len(s.msgs) == 6 {
+		w.log = append(w.log, "Send ... (further messages of this stream not listed)")
+	}
+
 	s.msgs = append(s.msgs, m)
 
 	return nil
@@ -436,7 +537,8 @@ func (s *vc16Stream) CloseAndRecv() (e *emptypb.Empty, err error) {
 		return nil, err
 	}
 
-	if s.a.Kind == vc16CloseErr || (s.a.Kind == vc16SendErr && len(s.msgs) <= s.failAt) {
+	if s.a.Kind == vc16CloseErr || (s.a.Kind == vc16SendErr && len(s.msgs) <= s.failAt) ||
+		(s.a.failIfWhole && len(s.msgs) >= s.expect) {
 		// A send fault scripted beyond what the client sent is turned into a
 		// failure of the whole stream.
 		w.log = append(w.log, "CloseAndRecv -> error")
@@ -446,7 +548,7 @@ func (s *vc16Stream) CloseAndRecv() (e *emptypb.Empty, err error) {
 		return nil, vc16Err(s.a.ErrKind)
 	}
 
-	w.log = append(w.log, "CloseAndRecv -> ok")
+	w.log = append(w.log, fmt.Sprintf("CloseAndRecv -> ok (%d messages accepted)", len(s.msgs)))
 	w.classes["success"] = true
 
 	seen := map[string]bool{}
@@ -545,11 +647,12 @@ func vc16DrawRec(t *rapid.T, nDev int) (rc vc16Rec) {
 
 func TestVerifC16Wire(t *testing.T) {
 	st := vstat.New("C16", "backendpb.wire",
-		"rapid histories through RuntimeRecorder -> real backendpb.BillStat -> scripted gRPC client stream: per round 0..4 records, then a Refresh (context live | already cancelled | already past its deadline | cancelled mid-stream) whose stream succeeds | fails to open | fails in Send at a drawn position | fails in CloseAndRecv, optionally with records arriving mid-stream; ends with a successful flush; non-trivial = a failed stream holding device d, a later Record(d), then a successful stream holding d; distinct by (devices, fault kinds, placement)",
+		"rapid histories through RuntimeRecorder -> real backendpb.BillStat -> scripted gRPC client stream: 1..40 devices, in about one case in 60 one round records a query for each of 4095 | 4096 | 4097 | 5000 | 8200 | 12300 devices; the scripted fault applies to the 1st | 2nd | 3rd stream of an upload (other streams succeed), or to the 2nd stream if the uploader opens one and else to the only one; delivered = what was sent on streams whose CloseAndRecv succeeded; per round 0..4 records, then a Refresh (context live | already cancelled | already past its deadline | cancelled mid-stream) whose stream succeeds | fails to open | fails in Send at a drawn position | fails in CloseAndRecv, optionally with records arriving mid-stream; ends with a successful flush; non-trivial = a failed stream holding device d, a later Record(d), then a successful stream holding d; distinct by (devices, fault kinds, placement)",
 		"fail-then-record-then-success", "open-error", "send-error-first", "send-error-later", "close-error", "record-mid-stream",
 		"refresh-with-done-context-nonempty", "open-error-done-context", "stream-cancelled-in-flight",
 		"send-error-eof", "near-miss-one-field", "unknown-location-after-known", "record-with-done-context",
-		"recorded-during-failed-upload-with-earlier-start-time", "recorded-during-failed-upload-with-equal-start-time", "recorded-during-failed-upload-with-later-start-time")
+		"recorded-during-failed-upload-with-earlier-start-time", "recorded-during-failed-upload-with-equal-start-time", "recorded-during-failed-upload-with-later-start-time",
+		"batch-over-4096-devices", "batch-over-4096-devices-with-fault-on-later-rpc")
 	st.Finish(t)
 
 	rapid.Check(t, func(t *rapid.T) {
@@ -579,14 +682,30 @@ func TestVerifC16Wire(t *testing.T) {
 			Metrics:  billstat.EmptyMetrics{},
 		})
 
-		nDev := rapid.IntRange(1, 4).Draw(t, "nDev")
+		nDev := rapid.SampledFrom([]int{2, 1, 3, 4, 2, 7, 15, 40}).Draw(t, "nDev")
 		nRounds := rapid.IntRange(1, 7).Draw(t, "rounds")
+
+		// Rarely, one round records a query for each of very many devices,
+		// around and above 4096 per upload.
+		big, bigRound := 0, -1
+		if rapid.IntRange(0, 99).Draw(t, "bigBatch") == 57 {
+			big = rapid.SampledFrom([]int{4097, 5000, 4096, 4095, 8200, 12300}).Draw(t, "bigDevices")
+			nRounds = min(nRounds, 3)
+			bigRound = rapid.IntRange(0, min(1, nRounds-1)).Draw(t, "bigRound")
+		}
+
 		key := &strings.Builder{}
 		for i := 0; i < nRounds; i++ {
+			if i == bigRound {
+				w.recordBulk(big)
+				fmt.Fprintf(key, "bulk%d ", big)
+				w.classes[fmt.Sprintf("bulk-%d-devices", big)] = true
+			}
+
 			nPre := rapid.SampledFrom([]int{0, 1, 2, 2, 3, 4}).Draw(t, "nPre")
 			for j := 0; j < nPre; j++ {
 				rc := vc16DrawRec(t, nDev)
-				key.WriteByte(byte('a' + rc.Dev))
+				fmt.Fprintf(key, "%d,", rc.Dev)
 				w.record(&rc)
 			}
 
@@ -597,13 +716,21 @@ func TestVerifC16Wire(t *testing.T) {
 				MidAt:   rapid.SampledFrom([]int{0, 500, 999}).Draw(t, "midAt"),
 				Ctx: []int{vc16CtxCancelled, vc16CtxExpired, vc16CtxCancelMid, vc16CtxCancelMid,
 					vc16CtxLive, vc16CtxLive, vc16CtxLive, vc16CtxWorker, vc16CtxWorker, vc16CtxWorker}[rapid.IntRange(0, 9).Draw(t, "ctxMode")],
+				FaultStream: rapid.SampledFrom([]int{1, 1, 2, 1, 3}).Draw(t, "faultStream"),
+			}
+
+			// The fault on the second stream of the upload if the uploader
+			// opens one, on the only stream otherwise: mostly for the round
+			// with the many devices.
+			if lo := rapid.IntRange(0, 7).Draw(t, "laterOrOnly"); (i == bigRound && lo != 5) || lo == 3 {
+				a.LaterOrOnly = true
 			}
 
 			nMid := rapid.SampledFrom([]int{0, 0, 1, 2}).Draw(t, "nMid")
-			fmt.Fprintf(key, "%c%d%d(", "SOXC"[a.Kind], a.SendAt/250, a.Ctx)
+			fmt.Fprintf(key, "%c%d%d@%d%t(", "SOXC"[a.Kind], a.SendAt/250, a.Ctx, a.FaultStream, a.LaterOrOnly)
 			for j := 0; j < nMid; j++ {
 				rc := vc16DrawRec(t, nDev)
-				key.WriteByte(byte('a' + rc.Dev))
+				fmt.Fprintf(key, "%d,", rc.Dev)
 				a.Mid = append(a.Mid, rc)
 			}
 
